@@ -87,8 +87,9 @@ def run(ctx):
         ctx, "proof",
         "theorems: a MultiPut installs all of its pairs (last occurrence of a key winning) or changes nothing; a successful one is ONE journal transaction of whole-block "
         "overwrites inside the key range; after any history Get returns the value of the latest successful put containing the key (get_latest); the range guards of both "
-        "procedures coincide; MultiPut and Get hold their keys' locks across the waiting commit (table regenerated from kvs/kvs.go), so — model M11, any interleaving — a Get returns only what a crash "
-        "cannot take back (kvs_gets_return_only_durable_values). Correspondence on sequences with overlapping key sets, duplicates, key-range boundaries and transactions of 511/512/600 blocks",
+        "procedures coincide; MultiPut and Get hold their keys' locks across the waiting commit (table regenerated from kvs/kvs.go), so — model M14, any interleaving — a Get returns only what a crash "
+        "cannot take back (kvs_gets_return_only_durable_values); the locks are taken in strictly ascending order, each key once (lockOrder model tied to kvs.lockOrder by the klockorder lines), "
+        "so no set of concurrent puts and gets is deadlocked (concurrent_puts_and_gets_never_deadlock). Correspondence on sequences with overlapping key sets, duplicates, key-range boundaries and transactions of 511/512/600 blocks",
         "sequences of MultiPut (1..64 pairs, overlapping keys, duplicates inside one put; 511, 512 and 600 distinct blocks) and Get over keys at LOGSIZE-1, LOGSIZE, sz-1, sz, "
         "sz+1, 0, 2^40 and random; every result (value / refused / panic) compared",
         ["values are whole blocks identified by a fill byte and a counter"],
